@@ -230,7 +230,7 @@ PROFILE = {
                          ['raise'], ['ret', rm.tag('no')]],
     'advance_modes': [('grid', 2), ('deadline', 2), ('long', 3)],
     'horizon': (3, 6),
-    'disconnect_all_pct': 0,
+    'disconnect_all_pct': 1,     # disconnect() of everybody (a tenth of the disconnect calls)
 }
 
 
